@@ -23,3 +23,4 @@ pub(crate) mod testutil {
     }
 }
 pub mod writer;
+pub mod tables;
